@@ -392,6 +392,8 @@ func ReducedStatements(extNames bool) []Stmt {
 		{Kind: KTask, Name: "a", Deps: []Arg{s("x.go"), s("y.go")}, Outs: []Arg{s("")}, Cmds: []string{"echo a", "echo b"}},
 		{Kind: KTask, Name: "q", Deps: []Arg{s(`C:\new\table`)}, Cmds: []string{`echo don't stop`}},
 		{Kind: KAssign, Name: "W", Text: `%s\t%d\n`},
+		// paths that a tidy-minded formatter might want to clean, more than once over
+		{Kind: KTask, Name: "p", Deps: []Arg{s("src///pkg"), s("a/././b"), s("./c/.//./d")}, Outs: []Arg{s("x//./y"), s("../z/")}, Cmds: []string{"echo a//b/./c"}},
 		// long literals and names that agree in their first 15+ characters
 		{Kind: KTask, Name: "averyveryverylongname_a", Deps: []Arg{s("internal/parser/parser.go"), s("internal/parser/tokens.go"), id("averyveryverylongname_b")}, Outs: []Arg{s("internal/parser/parser.out"), id("averyveryverylongname_c")}, Cmds: []string{"echo a"}},
 		{Kind: KAssign, Name: "averyveryverylongname_c", IsCall: true, Fn: "join", Args: []Arg{s("a/very/long/path/segment/one"), s("a/very/long/path/segment/two")}},
